@@ -757,22 +757,11 @@ static LY_ERR
 lyb_print_metadata(struct ly_out *out, const struct lyd_node *node, struct lyd_lyb_ctx *lybctx)
 {
     uint8_t count = 0;
-    const struct lys_module *wd_mod = NULL;
     struct lyd_meta *iter;
 
-    /* with-defaults */
-    if (node->schema->nodetype & LYD_NODE_TERM) {
-        if (((node->flags & LYD_DEFAULT) && (lybctx->print_options & (LYD_PRINT_WD_ALL_TAG | LYD_PRINT_WD_IMPL_TAG))) ||
-                ((lybctx->print_options & LYD_PRINT_WD_ALL_TAG) && lyd_is_default(node))) {
-            /* we have implicit OR explicit default node, print attribute only if context include with-defaults schema */
-            wd_mod = ly_ctx_get_module_latest(node->schema->module->ctx, "ietf-netconf-with-defaults");
-        }
-    }
+    /* no with-defaults annotation, the default flag is stored in the node flags */
 
     /* count metadata */
-    if (wd_mod) {
-        ++count;
-    }
     for (iter = node->meta; iter; iter = iter->next) {
         if (!lyd_metadata_should_print(iter)) {
             continue;
@@ -786,13 +775,6 @@ lyb_print_metadata(struct ly_out *out, const struct lyd_node *node, struct lyd_l
 
     /* write number of metadata on 1 byte */
     LY_CHECK_RET(lyb_write(out, &count, 1, lybctx->lybctx));
-
-    if (wd_mod) {
-        /* write the "default" metadata */
-        LY_CHECK_RET(lyb_print_model(out, wd_mod, 0, lybctx->lybctx));
-        LY_CHECK_RET(lyb_write_string("default", 0, sizeof(uint16_t), out, lybctx->lybctx));
-        LY_CHECK_RET(lyb_write_string("true", 0, sizeof(uint64_t), out, lybctx->lybctx));
-    }
 
     /* write all the node metadata */
     LY_LIST_FOR(node->meta, iter) {
